@@ -1,4 +1,5 @@
 from engine.core import Ob
+from obligations import C01 as _c01
 
 CK2 = ('--bounds-check', '--pointer-check', '--signed-overflow-check', '--div-by-zero-check')
 H = 'C02/futex.c'
@@ -22,6 +23,10 @@ OBLIGATIONS = [
     Ob(name='C02.O4.compat_noasync', harness=H, entry='h_compat_noasync', defines=('_LGPL_SOURCE',), unwind=4, cbmc_flags=NU, min_covers=1, checks=CK2,
        functions=('compat_futex_noasync',), desc='compat_futex_noasync: WAIT under the compat lock until the value differs; WAKE broadcasts; lock released'),
 ]
+# C02.O2: updater half of the sleep/wake handshake inside the registry scans (shared with C01.O4)
+OBLIGATIONS += [o for o in _c01.OBLIGATIONS if o.name.startswith('C01.O4.')]
+# C02.O1: reader half (store of the reader word -> full barrier -> test of futex / waiting; wake-up iff needed)
+OBLIGATIONS += [o for o in _c01.OBLIGATIONS if o.name.startswith('C01.O2.') and o.name.endswith('.unlock') or o.name.startswith('C01.O3.qsbr.')]
 META = {
     'level': 'other',
     'explanation': 'C02 is a liveness property (every synchronize_rcu returns under fair schedules). Contracts decide its per-function premises only: the sleep/wake handshake on both sides (reader side: C01.O2/O3 obligations on store -> barrier -> futex test; updater side and futex-wait loops here) as partial-correctness contracts under an adversarial futex (spurious wake-ups, EINTR, EAGAIN, ENOSYS) and an arbitrary waker. Termination itself is not decided.',
